@@ -185,7 +185,7 @@ type groupState struct {
 func New(opt Options) (*World, error) {
 	if opt.Prop == "C12" && opt.ProbeDenoms == nil {
 		// every pool identifier is also used as a query argument, existing or not
-		opt.ProbeDenoms = []string{"a", "ab", "abc", "b", "A", "a/", "a b", "a-1", " a", "a\t", "a\x00b", "\x00", "a/b", "/", "zz"}
+		opt.ProbeDenoms = []string{"a", "ab", "abc", "b", "A", "a/", "a b", "a-1", " a", "a\t", "a\x00b", "\x00", "a/b", "/", "zz", ""}
 	}
 	accts := simnet.DefaultAccounts(NumAccounts)
 	var db dbm.DB = dbm.NewMemDB()
